@@ -666,6 +666,18 @@ class PathState:
             else:
                 if val == c and (w or c == 0):
                     return True
+        for _q, k, vals in self.__dict__.get("wf_undefined", ()):
+            val = 0
+            for f in k:
+                if not isinstance(f, F):
+                    break
+                f = self.lin.reduce(f)
+                if f.m:
+                    break
+                val = (val << 1) | f.c
+            else:
+                if val in vals:
+                    return True
         for _q, k, vals in self.__dict__.get("wf_members", ()):
             val = 0
             for f in k:
@@ -973,6 +985,16 @@ class Interp:
         cache[key] = res
         return res
 
+    def missing_never_returns(self, ci: ClassInfo) -> bool:
+        """no _missing_, or one that only raises (never hands out a member): an undefined value ends in ValueError"""
+        miss = self.repo.find_method(ci, "_missing_")
+        if miss is None:
+            return True
+        for n in ast.walk(miss.node):
+            if isinstance(n, ast.Return) and n.value is not None and not (isinstance(n.value, ast.Constant) and n.value.value is None):
+                return False
+        return True
+
     def enum_lookup(self, ci: ClassInfo, v):
         members = self.repo.enum_members(ci)
         if isinstance(v, tuple):
@@ -1018,6 +1040,33 @@ class Interp:
                     if r is None:
                         raise PathRaise("ValueError", f"not a valid {ci.name}")
                     return r
+                if forms is not None and getattr(self, "explore_undefined_enums", False) and self.missing_never_returns(ci):
+                    # an enumeration without _missing_ raises ValueError for an undefined value: that exit is a path of its own
+                    # (a caller may swallow the exception), taken when some value of these bits is undefined
+                    defined = {m.value for m in members.values() if isinstance(m.value, int) and not isinstance(m.value, bool)}
+                    ats = sorted({a for f in forms for a in f.atoms()}) if all(isinstance(f, F) for f in forms) else None
+                    possible = False
+                    if ats is not None and len(ats) <= 12:
+                        for idx in range(1 << len(ats)):
+                            asg = {a: (idx >> i) & 1 for i, a in enumerate(ats)}
+                            val = 0
+                            for f in forms:
+                                bit = f.c
+                                for a in f.atoms():
+                                    bit ^= asg[a]
+                                val = (val << 1) | bit
+                            if val not in defined:
+                                possible = True
+                                break
+                    elif ats is not None:
+                        possible = True
+                    if possible:
+                        ck = ("enum-undefined", ci.qualname, tuple(forms))
+                        if ck not in self.st.conds:
+                            self.st.conds[ck] = self.st.choose(f"{ci.name} undefined")
+                        if self.st.conds[ck]:
+                            self.st.__dict__.setdefault("wf_undefined", []).append((ci.qualname, tuple(forms), frozenset(defined)))
+                            raise PathRaise("ValueError", f"not a valid {ci.name}")
                 if forms is not None:
                     # the lazy view ASSUMES a defined value (well-formed input); remembered, so that a path which later pins the
                     # bits to an undefined value is recognised as outside the assumption (PathState.infeasible)
